@@ -51,6 +51,7 @@ import QV.Props.C01
 import QV.Props.C02
 import QV.Props.C04
 import QV.Lemmas.MetricsCompose
+import QV.Lemmas.CallForm
 
 namespace QV.Props
 namespace C10
@@ -1917,6 +1918,103 @@ example (ε : ℝ) (am ph : PRBM ℝ 2 h a) : ∃ v, nllMixed ε 2 (userDict exK
 end userdict
 
 end compose
+
+/-! ## Extension round 2: the `deprecated_kwarg` alias layer in front of `fidelity` / `KL` ("every code path returns …")
+Model: `QV.CallForm.renameKw`, `aliasCall`, `metricBind` (QV/Model/CallForm.lean; utils/__init__.py:48-75,
+training_statistics.py:26-27, 137-138); executed by driver op `c10.alias_call`. -/
+section aliaslayer
+open QV.CallForm
+set_option linter.unusedSimpArgs false
+variable {V : Type}
+
+/-- SPECIFICATION: the values a call supplies for `target` under any of its three names -/
+def targetSources (kw : List (String × V)) : List V :=
+  (kwLookup kw "target").toList ++ (kwLookup kw "target_psi").toList ++ (kwLookup kw "target_rho").toList
+
+/-- SPECIFICATION: what the undecorated function must see under the name `p`: the deprecated names are gone, `target` carries the one
+supplied value, every other keyword (`space`, `bases`, ignored extras) is untouched -/
+def normKw (kw : List (String × V)) (p : String) : Option V :=
+  if p = "target_psi" ∨ p = "target_rho" then none
+  else if p = "target" then (targetSources kw).head? else kwLookup kw p
+
+/-- **`deprecated_kwarg.rename` for `fidelity` / `KL`**, every keyword dict: two of the three names `target`, `target_psi`, `target_rho`
+⇒ `TypeError` (also the two DEPRECATED names together: the first is renamed, the second then collides); otherwise the renamed dict
+gives `target` the one supplied value, drops the deprecated names and leaves everything else. Fails if a table entry pointed to
+another name, the collision check were dropped or applied to the wrong name, or the popped value were lost. -/
+theorem C10_alias_rename_spec (kw : List (String × V)) :
+    (2 ≤ (targetSources kw).length → renameKw metricAliases kw = .error .TypeError) ∧
+    ((targetSources kw).length ≤ 1 →
+      ∃ kw', renameKw metricAliases kw = .ok kw' ∧ ∀ p, kwLookup kw' p = normKw kw p) := by
+  cases ht : kwLookup kw "target" <;> cases hp : kwLookup kw "target_psi" <;> cases hr : kwLookup kw "target_rho" <;>
+    simp [targetSources, ht, hp, hr, metricAliases, renameKw, renameStep, kwLookup_append, kwLookup_eraseKey, kwLookup, normKw]
+  all_goals
+    intro p
+    have e1 : ("target_psi" = p) = (p = "target_psi") := propext eq_comm
+    have e2 : ("target_rho" = p) = (p = "target_rho") := propext eq_comm
+    have e3 : ("target" = p) = (p = "target") := propext eq_comm
+    try simp only [e1, e2, e3]
+    by_cases h1 : p = "target_psi"
+    · subst h1; simp [ht, hp, hr]
+    by_cases h2 : p = "target_rho"
+    · subst h2; simp [ht, hp, hr]
+    by_cases h3 : p = "target"
+    · subst h3; simp [ht, hp, hr]
+    first | (simp [h1, h2, h3]; done) | (simp [h1, h2, h3]; cases kwLookup kw p <;> rfl)
+
+/-- **every accepted mix of positional / new-keyword / deprecated-keyword forms returns what the undecorated function returns on the
+canonical call** (`kwc`: any keyword dict giving the parameters the normalised values — e.g. the same call written with `target=`),
+for every signature `params`, every positional prefix, every body `f`; **two names for the target ⇒ refused and `f` not evaluated**. -/
+theorem C10_alias_same_value {R : Type} (dflt : String → Option V) (params : List String) (f : List (String × V) → R)
+    (pos : List V) (kw : List (String × V)) :
+    (2 ≤ (targetSources kw).length → aliasCallValue metricAliases dflt params f pos kw = .error .TypeError) ∧
+    ((targetSources kw).length ≤ 1 → ∀ kwc : List (String × V), (∀ p ∈ params, kwLookup kwc p = normKw kw p) →
+      aliasCallValue metricAliases dflt params f pos kw =
+        match bindParams dflt kwc params pos with
+        | .error e => .error e
+        | .ok r => .ok (f r)) := by
+  obtain ⟨h2, h1⟩ := C10_alias_rename_spec kw
+  refine ⟨fun h => ?_, fun h kwc hc => ?_⟩
+  · simp only [aliasCallValue, aliasCall, h2 h]
+  · obtain ⟨kw', hk, hl⟩ := h1 h
+    have : bindParams dflt kw' params pos = bindParams dflt kwc params pos :=
+      bindParams_congr dflt kw' kwc params pos (fun p hp => by rw [hl p, hc p hp])
+    simp only [aliasCallValue, aliasCall, hk, this]
+    cases bindParams dflt kwc params pos <;> rfl
+
+/-- two call forms supplying the same values (under whichever names) are indistinguishable for the function -/
+theorem C10_alias_forms_agree (dflt : String → Option V) (params : List String) (pos : List V)
+    (kw₁ kw₂ : List (String × V)) (h₁ : (targetSources kw₁).length ≤ 1) (h₂ : (targetSources kw₂).length ≤ 1)
+    (h : ∀ p ∈ params, normKw kw₁ p = normKw kw₂ p) :
+    aliasCall metricAliases dflt params pos kw₁ = aliasCall metricAliases dflt params pos kw₂ := by
+  obtain ⟨k₁, hk₁, hl₁⟩ := (C10_alias_rename_spec kw₁).2 h₁
+  obtain ⟨k₂, hk₂, hl₂⟩ := (C10_alias_rename_spec kw₂).2 h₂
+  simp only [aliasCall, hk₁, hk₂]
+  exact bindParams_congr dflt k₁ k₂ params pos (fun p hp => by rw [hl₁ p, hl₂ p, h p hp])
+
+/-- a target given positionally AND under any of the three names is refused (`fidelity(s, t, target_rho=t)`): the renamed keyword
+collides with the positional argument in Python's binding -/
+theorem C10_alias_positional_shadow (isKL : Bool) (pos : List Arg) (kw : List (String × Arg))
+    (hpos : 2 ≤ pos.length) (hsrc : targetSources kw ≠ []) : metricBind isKL pos kw = .error .TypeError := by
+  by_cases h : 2 ≤ (targetSources kw).length
+  · simp only [metricBind, aliasCall, (C10_alias_rename_spec kw).1 h]
+  · obtain ⟨kw', hk, hl⟩ := (C10_alias_rename_spec kw).2 (by omega)
+    obtain ⟨v, hv⟩ : ∃ v, kwLookup kw' "target" = some v := by
+      rw [hl "target"]
+      cases hs : targetSources kw with
+      | nil => exact absurd hs hsrc
+      | cons v _ => exact ⟨v, by simp [normKw, hs]⟩
+    simp only [metricBind, aliasCall, hk]
+    exact bindParams_shadow metricDefault kw' ["nn_state"] "target" _ pos (by simp only [List.length_cons, List.length_nil]; omega) v hv
+
+example : metricBind false [.ref 0] [("target_psi", .ref 1)]
+    = .ok [("nn_state", .ref 0), ("target", .ref 1), ("space", .none)] := by rfl
+example : metricBind true [.ref 0] [("bases", .ref 3), ("target_rho", .ref 1), ("junk", .int 7)]
+    = metricBind true [.ref 0, .ref 1, .none, .ref 3] [] := by rfl
+example : metricBind true [.ref 0] [("target_rho", .ref 1), ("target_psi", .ref 2)] = .error .TypeError := by rfl
+example : metricBind false [.ref 0, .ref 1] [("target_rho", .ref 1)] = .error .TypeError := by rfl
+example : targetSources [("space", Arg.ref 2), ("target_psi", Arg.ref 1)] = [Arg.ref 1] := by rfl
+
+end aliaslayer
 
 end C10
 end QV.Props
